@@ -76,8 +76,8 @@ class ConnectRules(Rule):
                 if c.connack_seq is not None or c.state == "refused":
                     L.violate("C04", "H2", "timeout-after-CONNACK", "connect() timed out although a CONNACK had been delivered")
             else:
-                if c.state == "lost" and d.kind == "lost":
-                    pass   # failing with the loss reason at the loss is within I10's spirit? no: must be MQTTTimeoutError
+                if d.kind == "data" and any(fx["tag"] == "malformed" and fx["fr"].type == "CONNACK" for fx in d.frame_fx):
+                    continue    # failing connect() on a malformed CONNACK is a legitimate reaction
                 L.violate("C04", "H2", "unexpected-failure:%s" % val[0], "connect() failed with %s outside a CONNACK dispatch" % val[0])
         # missed timeout
         for c in L.conns.values():
@@ -201,7 +201,12 @@ class KeepaliveRules(Rule):
                                   "PINGREQ at %.3f answered at %.3f (k=%d) but the keepalive timer aborted the connection"
                                   % (pg["t"], pg["ans"], k))
         if d.kind == "timer" and d.aborted and d.fired and d.fired["kind"] in ("loop",):
-            L.violate("C15", "K3", "abort-from-loop", "keepalive periodic task aborted the connection")
+            c = L.conns.get(d.fired["ci"])
+            k = c.keepalive if c else 0
+            late = [pg for pg in (c.pings if c else [])
+                    if (pg["ans"] is None or pg["ans"] >= pg["t"] + k - EPS) and d.t >= pg["t"] + k - EPS]
+            if not late:
+                L.violate("C15", "K3", "abort-from-loop", "keepalive periodic task aborted the connection though no PINGREQ was overdue")
         if d.kind == "data" and not d.desync and d.frame_fx:
             tags = [fx["tag"] for fx in d.frame_fx]
             if all(t == "pingresp-extra" for t in tags):
